@@ -452,11 +452,13 @@ func (tk *tokenizer) consumeUrl(pos Pos) (Token, Token) {
 badURL:
 	// http://drafts.csswg.org/csswg/css-syntax/#consume-the-remnants-of-a-bad-url0
 	for tk.pos < L {
-		if bytes.HasPrefix(tk.src[tk.pos:], []byte("\\)")) {
-			tk.pos += 2
-		} else if tk.src[tk.pos] == ')' {
+		if tk.src[tk.pos] == ')' {
 			tk.pos += 1
 			break
+		} else if tk.src[tk.pos] == '\\' && !bytes.HasPrefix(tk.src[tk.pos:], []byte("\\\n")) {
+			// valid escape: allows an escaped ")" without ending the bad url
+			tk.pos += 1
+			tk.consumeEscape()
 		} else {
 			_, w := utf8.DecodeRune(tk.src[tk.pos:])
 			tk.pos += w
